@@ -96,10 +96,11 @@ def Kind.rank : Kind → Nat
   | .sync => 4
   | .align _ _ => 5
   | .alignOrigin => 6
-  | .transform _ _ _ _ => 7
-  | .project _ => 8
-  | .exportTum => 9
-  | .exportKitti => 10
+  | .transform .left _ _ _ => 7
+  | .transform .right _ _ _ => 8
+  | .project _ => 9
+  | .exportTum => 10
+  | .exportKitti => 11
 
 def opt (b : Bool) (k : Kind) : List Kind := if b then [k] else []
 
@@ -138,10 +139,21 @@ def kinds (f : Flags) : Except Die (List Kind) :=
       opt (f.synced && f.sub != .kitti) .sync ++
       opt (f.synced && (f.align || f.correctScale)) (.align f.correctScale (f.correctScale && !f.align)) ++
       opt (f.synced && f.alignOrigin) .alignOrigin ++
-      opt (f.transformLeft || f.transformRight)
-        (.transform (if f.transformLeft then .left else .right) f.invert f.transformRight f.propagate) ++
+      opt f.transformLeft (.transform .left f.invert false f.propagate) ++
+      opt f.transformRight (.transform .right f.invert true f.propagate) ++
       optPlane f.plane ++
       exports f)
+
+/-- the transformation step of the code before fix 20269c0 (finding F13): one step, the left file when
+given, multiplied on the right whenever `--transform_right` is given -/
+def transformStepOld (f : Flags) : List Kind :=
+  opt (f.transformLeft || f.transformRight)
+    (.transform (if f.transformLeft then .left else .right) f.invert f.transformRight f.propagate)
+
+/-- the transformation steps now: each given file on its own side, left first -/
+def transformSteps (f : Flags) : List Kind :=
+  opt f.transformLeft (.transform .left f.invert false f.propagate) ++
+  opt f.transformRight (.transform .right f.invert true f.propagate)
 
 /-- steps applied to the reference -/
 def refKinds (f : Flags) : List Kind :=
@@ -188,10 +200,11 @@ def Step.rank : Step → Nat
   | .sync _ => 4
   | .align _ _ _ => 5
   | .alignOrigin => 6
-  | .transform _ _ _ _ => 7
-  | .project _ => 8
-  | .exportTum => 9
-  | .exportKitti => 10
+  | .transform .left _ _ _ => 7
+  | .transform .right _ _ _ => 8
+  | .project _ => 9
+  | .exportTum => 10
+  | .exportKitti => 11
 
 /-- which argument feeds which step -/
 def attach (o : TrajOpts) : Kind → Step
